@@ -294,6 +294,7 @@ func applyEdits(fc *fileCtx) []byte {
 // BlockStmt, CaseClause or CommClause body, i.e. another statement may be put before it.
 func instrumentFile(label string, p *packages.Package, f *ast.File, fc *fileCtx) {
 	info := p.TypesInfo
+	goInfo = info
 	listed := map[ast.Stmt]bool{}
 	labeled := map[ast.Stmt]*ast.LabeledStmt{}
 	ast.Inspect(f, func(n ast.Node) bool {
@@ -493,6 +494,42 @@ func instrumentFile(label string, p *packages.Package, f *ast.File, fc *fileCtx)
 			if x.Op == token.ARROW {
 				pos := p.Fset.Position(n.Pos())
 				inv.Unsim = append(inv.Unsim, Audit{"channel receive", label + "/" + fc.rel, pos.Line})
+			}
+		case *ast.SelectorExpr:
+			// a method VALUE of a sync primitive (unlock := mu.Unlock; defer unlock()): bound to a
+			// closure over the shim, with the receiver evaluated here as the language does
+			if len(stack) >= 2 {
+				if ce, ok := stack[len(stack)-2].(*ast.CallExpr); ok && ce.Fun == ast.Expr(x) {
+					break
+				}
+			}
+			if sel := info.Selections[x]; sel != nil && sel.Kind() == types.MethodVal && len(sel.Index()) == 1 {
+				if m, ok := sel.Obj().(*types.Func); ok && m.Pkg() != nil && m.Pkg().Path() == "sync" {
+					rs := strings.TrimPrefix(m.Type().(*types.Signature).Recv().Type().String(), "*")
+					shim := ""
+					switch rs {
+					case "sync.Mutex":
+						shim = map[string]string{"Lock": "MutexLock", "Unlock": "MutexUnlock"}[m.Name()]
+					case "sync.RWMutex":
+						shim = map[string]string{"Lock": "RWLock", "Unlock": "RWUnlock", "RLock": "RWRLock", "RUnlock": "RWRUnlock"}[m.Name()]
+					case "sync.WaitGroup":
+						shim = map[string]string{"Done": "WGDone", "Wait": "WGWait"}[m.Name()]
+					}
+					if shim != "" {
+						recv := fc.text(x.X)
+						if _, isPtr := info.TypeOf(x.X).Underlying().(*types.Pointer); !isPtr {
+							recv = "&(" + recv + ")"
+						}
+						sid := newSite("sync", fc, label, x.Pos(), funcName, rs+"."+m.Name()+" (method value)")
+						fc.replace(x.Pos(), x.End(), fmt.Sprintf("__simrt.Bind0(__simrt.%s, %d, %s)", shim, sid, recv))
+						ast.Inspect(x.X, func(n ast.Node) bool {
+							if id, ok := n.(*ast.Ident); ok {
+								syncRecvIdent[id] = true
+							}
+							return true
+						})
+					}
+				}
 			}
 		case *ast.CallExpr:
 			handleCall(label, p, fc, x, funcName, hostStmt, syncDone)
@@ -869,6 +906,8 @@ func rewriteMapRange(label string, p *packages.Package, fc *fileCtx, x *ast.Rang
 	}
 }
 
+var goInfo *types.Info
+
 func rewriteGo(label string, fc *fileCtx, g *ast.GoStmt, fn string, isListed bool) {
 	id := newSite("go", fc, label, g.Pos(), fn, "")
 	call := g.Call
@@ -885,6 +924,22 @@ func rewriteGo(label string, fc *fileCtx, g *ast.GoStmt, fn string, isListed boo
 	name := "Go"
 	if n > 0 {
 		name = fmt.Sprintf("Go%d", n)
+	}
+	if sig, ok := goInfo.TypeOf(call.Fun).Underlying().(*types.Signature); ok {
+		if sig.Variadic() {
+			fatal = append(fatal, fmt.Sprintf("%s:%d: go statement calling a variadic function", fc.rel, fc.tf.Line(g.Pos())))
+			return
+		}
+		switch sig.Results().Len() {
+		case 0:
+		case 1:
+			name = fmt.Sprintf("GoR%d", n)
+		case 2:
+			name = fmt.Sprintf("GoRR%d", n)
+		default:
+			fatal = append(fatal, fmt.Sprintf("%s:%d: go statement calling a function with more than two results", fc.rel, fc.tf.Line(g.Pos())))
+			return
+		}
 	}
 	fc.replace(g.Go, call.Fun.Pos(), fmt.Sprintf("__simrt.%s(%d, ", name, id))
 	if n > 0 {
@@ -1016,6 +1071,7 @@ func handleCall(label string, p *packages.Package, fc *fileCtx, c *ast.CallExpr,
 	name := m.Name()
 	pkg := m.Pkg().Path()
 	shim := ""
+	isLocker := false
 	switch pkg {
 	case "sync":
 		switch rs {
@@ -1030,6 +1086,9 @@ func handleCall(label string, p *packages.Package, fc *fileCtx, c *ast.CallExpr,
 			shim = map[string]string{"Do": "OnceDo"}[name]
 		case "sync.WaitGroup":
 			shim = map[string]string{"Add": "WGAdd", "Done": "WGDone", "Wait": "WGWait"}[name]
+		case "sync.Locker":
+			shim = map[string]string{"Lock": "LockerLock", "Unlock": "LockerUnlock"}[name]
+			isLocker = true
 		case "sync.Cond":
 			audit(&inv.Unsim, "sync.Cond."+name)
 		case "sync.Pool":
@@ -1056,6 +1115,12 @@ func handleCall(label string, p *packages.Package, fc *fileCtx, c *ast.CallExpr,
 	}
 	// receiver expression -> pointer expression
 	recvTxt := fc.text(sel.X)
+	if isLocker {
+		// an interface value: passed as it is, the shim looks at its dynamic type
+		sid := newSite("sync", fc, label, c.Pos(), fn, rs+"."+name)
+		fc.replace(c.Pos(), c.Lparen+1, fmt.Sprintf("__simrt.%s(%d, %s", shim, sid, recvTxt))
+		return
+	}
 	// implicit field path (embedded mutex): s.Lock() with s struct{ sync.Mutex }
 	if idx := s.Index(); len(idx) > 1 {
 		t := info.TypeOf(sel.X)
